@@ -47,23 +47,30 @@ class SqlFluffTable(Table):
         :param alias: alias of the table segment
         :return: 'Table' object
         """
+        # some dialects (tsql) allow whitespace and comments around the dots of a
+        # qualified name: they are not name parts
+        segments = [
+            segment
+            for segment in table.segments
+            if not (segment.is_whitespace or segment.is_comment or segment.is_meta)
+        ]
         dot_idx = None
-        for idx in range(len(table.segments) - 2, -1, -1):
-            token = table.segments[idx]
+        for idx in range(len(segments) - 2, -1, -1):
+            token = segments[idx]
             if bool(token.type == "symbol"):
                 dot_idx, _ = idx, token
                 break
         real_name = (
-            table.segments[dot_idx + 1].raw
+            segments[dot_idx + 1].raw
             if dot_idx
-            else (table.raw if table.type == "identifier" else table.segments[0].raw)
+            else (table.raw if table.type == "identifier" else segments[0].raw)
         )
         # rewrite identifier's get_parent_name accordingly
         parent_name = (
             "".join(
                 [
                     escape_identifier_name(segment.raw)
-                    for segment in table.segments[:dot_idx]
+                    for segment in segments[:dot_idx]
                 ]
             )
             if dot_idx
